@@ -161,6 +161,51 @@ func (e *Exec) intrinsicBig(name string, fn *ssa.Function, args []Value) (Value,
 			return e.setBig(args[0], &BigVal{Mode: "int", T: acc, MaxBytes: len(bs)}), true
 		}
 		return e.setBig(args[0], &BigVal{Mode: "bv", T: concatBytes(bs), W: 8 * len(bs)}), true
+	case "(*math/big.Int).FillBytes":
+		b := e.getBig(args[0])
+		buf, ok := args[1].(*Slice)
+		if !ok || buf.Buf != nil {
+			e.unsupported("FillBytes into %T", args[1])
+		}
+		n := buf.Len
+		var ts []*smt.Term
+		if c, ok := b.isConst(); ok {
+			if (c.BitLen()+7)/8 > n {
+				e.raisePanic("math/big: buffer too small to fit value")
+			}
+			bs := c.FillBytes(make([]byte, n))
+			for _, x := range bs {
+				ts = append(ts, byteConst(x))
+			}
+		} else if b.Mode == "bv" {
+			t := b.T
+			if b.W > 8*n {
+				e.panicCheck("math/big: buffer too small to fit value", smt.Eq(smt.Extract(t, b.W-1, 8*n), smt.BVC(b.W-8*n, 0)))
+				t = smt.Extract(t, 8*n-1, 0)
+			} else {
+				t = smt.ZExt(t, 8*n)
+			}
+			ts = bytesOfTerm(t, n)
+		} else {
+			e.unsupported("FillBytes in Int mode")
+		}
+		for i, x := range ts {
+			e.store(buf.Back[buf.Off+i], x)
+		}
+		return buf, true
+	case "(*math/big.Int).Bit":
+		b := e.getBig(args[0])
+		i := e.constInt(args[1])
+		if c, ok := b.isConst(); ok {
+			return smt.BVC(64, uint64(c.Bit(i))), true
+		}
+		if b.Mode != "bv" {
+			e.unsupported("Bit in Int mode")
+		}
+		if i >= b.W {
+			return smt.BVC(64, 0), true
+		}
+		return smt.ZExt(smt.Extract(b.T, i, i), 64), true
 	case "(*math/big.Int).Bytes":
 		return e.bigBytes(e.getBig(args[0])), true
 	case "(*math/big.Int).Add", "(*math/big.Int).Sub", "(*math/big.Int).Mul":
